@@ -382,6 +382,26 @@ fn run_set(t: &Tpl, set: &[usize]) -> String {
                         Ok(Ok((label, changed))) => out.push(format!("{}|{si}|{ti}|{ri}|{label}|{changed}", member as u8)),
                         other => out.push(format!("{}|{si}|{ti}|{ri}|machinery:{other:?}|false", member as u8)),
                     }
+                    // the same request selecting the target TOGETHER WITH person t1: every selected
+                    // entry needs its own grant, so the target may change only if it is granted itself
+                    if matches!(rq, Req::Modify(..) | Req::Delete) && matches!(tg, Tgt::T2 | Tgt::Grp | Tgt::Builtin | Tgt::SyncObj) {
+                        let res = t.srv.write_abort(now(), |w| {
+                            let line_of = |d: &Vec<String>| d.iter().find(|l| l.starts_with(&target.to_string())).cloned();
+                            let before = line_of(&dump_all(w));
+                            let id = ident_of(w, person_uuid(ACTOR), scope)?;
+                            let f_t = Filter::new(f_or(vec![f_eq(Attribute::Uuid, PartialValue::Uuid(target)), f_eq(Attribute::Uuid, PartialValue::Uuid(tgt_uuid(Tgt::T1)))]));
+                            let r: Result<(), OperationError> = match rq {
+                                Req::Modify(_, needs) => ModifyEvent::from_internal_parts(id, &modlist(needs), &f_t, w).and_then(|me| w.modify(&me)),
+                                _ => DeleteEvent::from_parts(id, &f_t, w).and_then(|de| w.delete(&de)),
+                            };
+                            let after = line_of(&dump_all(w));
+                            Ok::<_, OperationError>((format!("{r:?}").chars().take(40).collect::<String>(), before != after))
+                        });
+                        match res {
+                            Ok(Ok((label, changed))) => out.push(format!("{}|{si}|{ti}|{ri}|[+t1] {label}|{changed}", member as u8)),
+                            other => out.push(format!("{}|{si}|{ti}|{ri}|machinery:{other:?}|false", member as u8)),
+                        }
+                    }
                 }
             }
         }
@@ -524,7 +544,7 @@ pub fn run(args: &[String]) -> ! {
                     Req::Modify(n, _) => n.to_string(),
                     other => format!("{other:?}"),
                 };
-                let key = format!("ungranted_write:{}:{}", rname.replace(' ', "_"), ["rw", "ro", "sync"][si]);
+                let key = format!("ungranted_write:{}:{}{}", rname.replace(' ', "_"), ["rw", "ro", "sync"][si], if p[4].starts_with("[+t1]") { ":target_selected_together_with_another_entry" } else { "" });
                 ctx.violation(
                     &key,
                     &format!("with profiles {names:?}, actor {} the receiver group, scope {}, the request [{rname}] on {:?} answered {} and CHANGED the directory; the statement forbids it: {why}", if member { "in" } else { "not in" }, ["read-write", "read-only", "synchronise"][si], TGTS[ti], p[4]),
